@@ -235,6 +235,8 @@ func main() {
 		cmdChkCheck(os.Args[2:])
 	case "c17-check":
 		cmdC17Check(os.Args[2:])
+	case "edit-check":
+		cmdEditCheck(os.Args[2:])
 	case "conc":
 		cmdConc(os.Args[2:])
 	case "store-replay":
